@@ -72,6 +72,17 @@ def pool_api(repo, chk):
         else:
             chk.ok('C09.1', 'R10', fn.site(c), ast.unparse(c)[:100], f'`{meth}` returns results in input order')
     partition_by_pool_size(repo, chk, fn, subs)
+    # the function that waits for the pool draws nothing from the process-global generators: how often it polls depends on pool size and timing,
+    # and every draw moves the seeded stream that later batches (noise controls, shuffles) read
+    polls = [w for w in own_nodes(fn.node) if isinstance(w, ast.While)]
+    for w in polls:
+        for c in ast.walk(w):
+            if isinstance(c, ast.Call):
+                d = m.dotted(c.func) or ''
+                if (d.startswith('numpy.random.') or d.startswith('random.')) and not d.endswith('.seed') and d.split('.')[-1] not in ('RandomState', 'default_rng', 'Random', 'Generator'):
+                    chk.bad('C09.1d', 'R10', fn.site(c), ast.unparse(c)[:100], 'the loop that waits for the pool draws from the process-global random generator: the number of polls depends on pool size and '
+                            'timing, so the seeded stream that the next batch reads (noise controls, shuffles) is at a different position from run to run')
+                    break
     # the worker returns the names with the score (so no positional matching is needed)
     w = repo.func('outrank.algorithms.importance_estimator', 'get_importances_estimate_pairwise')
     rets = [n for n in own_nodes(w.node) if isinstance(n, ast.Return)]
